@@ -16,13 +16,13 @@ namespace SMGo.Proofs.CTIRRefineGCM
 /-- fuel of `cryptoBlocks` on `l` bytes (closed form: `fuelCB_eq`) -/
 def fuelCrypt (l : Nat) : Nat := Crypt.fuelCB fuelFill l
 
-theorem fuelCrypt_eq (l : Nat) : fuelCrypt l = l / 16 / 16 * 494 + 2570 := by
+theorem fuelCrypt_eq (l : Nat) : fuelCrypt l = l / 16 / 16 * 504 + 2670 := by
   simp only [fuelCrypt, Crypt.fuelCB, fuelFill, fuelFsb, fuelLane]
 
 /-- fuel of Seal / Open on a text of `l` bytes -/
 def fuelSealOpen (l : Nat) : Nat := fuelGlue fuelEnc fuelCfc fuelGhu fuelGhf fuelEns fuelCrypt l
 
-theorem fuelSealOpen_eq (l : Nat) : fuelSealOpen l = l / 16 / 16 * 494 + 2944 := by
+theorem fuelSealOpen_eq (l : Nat) : fuelSealOpen l = l / 16 / 16 * 504 + 3106 := by
   simp only [fuelSealOpen, fuelGlue, fuelCrypt_eq, fuelEnc, fuelCfc, fuelGhu, fuelGhf, fuelEns]
   omega
 
@@ -94,15 +94,15 @@ theorem cipherV_ok (rkw : List W32) (rest : List Val) : CipherOk (cipherV rkw re
 
 /-- **closed**: generated program, generated globals, the specification semantics of the leaves (`specSem`, the one of the driver):
     Seal returns dst ‖ SM4-GCM(plaintext) for the round keys `rkw` -/
-theorem ir_Seal_arm64_closed (rkw : List W32) (rest : List Val) {ns ts : Nat} (dst nonce pt aad : Bytes) (cap : Nat)
+theorem ir_Seal_arm64_closed (rkw : List W32) (hrk : rkw ≠ []) (rest : List Val) {ns ts : Nat} (dst nonce pt aad : Bytes) (cap : Nat)
     (hn : nonce.length = ns) (hns : ns < 2 ^ 61) (hpt : pt.length ≤ maxPlain) (hcap : dst.length ≤ cap) (hts : ts ≤ 16)
     (hcap62 : cap < 2 ^ 62) (haad : aad.length < 2 ^ 61) :
     ∀ f, fuelSealOpen pt.length ≤ f →
       runV PA GA (asmOracle specsA (specSem rkw)) f 0 (glueArgs (cipherV rkw rest) (wordsV rkw) ns ts dst nonce pt aad cap)
         = .ret [bytesV dst, bytesV (dst ++ sealGCM (Spec.SM4.cryptFast rkw) ts nonce pt aad)] :=
-  ir_Seal_arm64_eq_spec_sem (specSem_leafSpec rkw) (cipherV_ok rkw rest) dst nonce pt aad cap hn hns hpt hcap hts hcap62 haad
+  ir_Seal_arm64_eq_spec_sem (specSem_leafSpec rkw hrk) (cipherV_ok rkw rest) dst nonce pt aad cap hn hns hpt hcap hts hcap62 haad
 
-theorem ir_Open_arm64_closed (rkw : List W32) (rest : List Val) {ns ts : Nat} (dst nonce ct aad : Bytes) (cap : Nat)
+theorem ir_Open_arm64_closed (rkw : List W32) (hrk : rkw ≠ []) (rest : List Val) {ns ts : Nat} (dst nonce ct aad : Bytes) (cap : Nat)
     (hn : nonce.length = ns) (hns : ns < 2 ^ 61) (h12 : 12 ≤ ts) (hts : ts ≤ 16) (hlen : ct.length ≤ maxPlain + ts)
     (hcap : dst.length ≤ cap) (hcap62 : cap < 2 ^ 62) (haad : aad.length < 2 ^ 61) :
     ∀ f, fuelSealOpen (ct.length - ts) ≤ f →
@@ -111,7 +111,7 @@ theorem ir_Open_arm64_closed (rkw : List W32) (rest : List Val) {ns ts : Nat} (d
         | some pt => .ret [bytesV dst, bytesV (dst ++ pt), .int 0]
         | none => .ret [bytesV dst, .arr [], .int 1] := by
   intro f hf
-  have h := ir_Open_arm64_eq_spec_sem (G := GA) (specSem_leafSpec rkw) (cipherV_ok rkw rest) dst nonce ct aad cap hn hns h12 hts hlen
+  have h := ir_Open_arm64_eq_spec_sem (G := GA) (specSem_leafSpec rkw hrk) (cipherV_ok rkw rest) dst nonce ct aad cap hn hns h12 hts hlen
     hcap hcap62 haad f hf
   rw [h, errOpen_value]
 
